@@ -163,7 +163,16 @@ def run(prog: Program, res: Result, tier: str) -> None:
     scale_names = literal("ScaleMethods")
     loc_names = literal("LocMethods")
     es = prog.func(S, "estimate_scale")
-    table = [s for s in body_walk(es.node) if isinstance(s, ast.AnnAssign) and norm(s.target) == "scale_methods"]
+    # the dispatch table is whatever dict literal is looked up with `method` (`T.get(method)` / `T[method]`), and the
+    # implementation is called through whatever local receives that lookup - by role, not by name
+    lookups = [s for s in body_walk(es.node) if isinstance(s, (ast.Assign, ast.AnnAssign)) and s.value is not None and (
+        (isinstance(s.value, ast.Call) and isinstance(s.value.func, ast.Attribute) and s.value.func.attr == "get" and isinstance(s.value.func.value, ast.Name)
+         and s.value.args and norm(s.value.args[0]) == "method") or
+        (isinstance(s.value, ast.Subscript) and isinstance(s.value.value, ast.Name) and norm(s.value.slice) == "method"))]
+    tname = (lookups[0].value.func.value.id if isinstance(lookups[0].value, ast.Call) else lookups[0].value.value.id) if lookups else "scale_methods"
+    fname = norm(lookups[0].targets[0] if isinstance(lookups[0], ast.Assign) else lookups[0].target) if lookups else "scale_func"
+    table = [s for s in body_walk(es.node) if (isinstance(s, ast.AnnAssign) and norm(s.target) == tname) or
+             (isinstance(s, ast.Assign) and len(s.targets) == 1 and norm(s.targets[0]) == tname)]
     impl = {}
     if table and isinstance(table[0].value, ast.Dict):
         for k, v in zip(table[0].value.keys, table[0].value.values):
@@ -177,8 +186,8 @@ def run(prog: Program, res: Result, tier: str) -> None:
             direct.add("std")
     missing = [n for n in scale_names if n not in impl and n not in direct]
     undefined = [f for f in impl.values() if not prog.has_func(S, f or "?")]
-    impl_calls = [c for c in calls_in_body(es.node) if dotted(c.func) == "scale_func"]
-    raises = bool(impl_calls) and all((f_ := _holds(pcs, c, "scale_func is not None")) is not None and "ValueError" in (_rejection(pcs, f_) or ())
+    impl_calls = [c for c in calls_in_body(es.node) if dotted(c.func) == fname]
+    raises = bool(impl_calls) and all((f_ := _holds(pcs, c, f"{fname} is not None")) is not None and "ValueError" in (_rejection(pcs, f_) or ())
                                       for c in impl_calls)
     key = "scale:exhaustive"
     # doublemad is implemented but only reachable with the explicit name (not in ScaleMethods): allowed extra
